@@ -107,8 +107,9 @@ class SourceJoin(MVPN):
         return f'{self._prefix()}:{self.rd._str()}:{self.source_as!s}:{self.source!s}:{self.group!s}'
 
     def __hash__(self) -> int:
-        # Direct _packed hash - include afi since MVPN supports both IPv4 and IPv6
-        return hash((self.afi, self._packed))
+        # what __eq__ compares (the source AS is left out there): equal routes hash equally;
+        # include afi since MVPN supports both IPv4 and IPv6
+        return hash((self.afi, self.CODE, self.rd, self.source, self.group))
 
     @classmethod
     def unpack_mvpn(cls, packed: Buffer, afi: AFI) -> 'MVPN':
